@@ -305,6 +305,53 @@ func (v View) RunPush(kind string, k int) (out [][2]int, ok bool) {
 	return out, true
 }
 
+// RunPushTwice obtains ONE push iterator value (v3) and runs it twice: stopped after k1 items, then again up to k2
+// items; re-running an iterator obtained earlier must start from the beginning again. v1/v2 have no push iterators:
+// two fresh pull iterations give the same listing.
+func (v View) RunPushTwice(kind string, k1, k2 int) (out [2][][2]int, ok bool) {
+	if v.ver != "v3" {
+		a, ok1 := v.RunPush(kind, k1)
+		b, ok2 := v.RunPush(kind, k2)
+		return [2][][2]int{a, b}, ok1 && ok2
+	}
+	collect := func(seq2 func(func(int, int) bool), seq1 func(func(int) bool), k int) [][2]int {
+		var r [][2]int
+		if k == 0 {
+			return r
+		}
+		if seq2 != nil {
+			for p, d := range seq2 {
+				r = append(r, [2]int{p, d})
+				if k > 0 && len(r) >= k {
+					break
+				}
+			}
+		} else {
+			for d := range seq1 {
+				r = append(r, [2]int{-2, d})
+				if k > 0 && len(r) >= k {
+					break
+				}
+			}
+		}
+		return r
+	}
+	switch kind {
+	case "A":
+		s := v.s3.All()
+		return [2][][2]int{collect(s, nil, k1), collect(s, nil, k2)}, true
+	case "V":
+		s := v.s3.Values()
+		return [2][][2]int{collect(nil, s, k1), collect(nil, s, k2)}, true
+	}
+	f := v.fin3()
+	if f == nil {
+		return out, false
+	}
+	s := f.Backward()
+	return [2][][2]int{collect(s, nil, k1), collect(s, nil, k2)}, true
+}
+
 // makeTestNumber builds a Number from a scripted source. kind "T": v3 NewNumberForTesting(fixed, rep, exp)
 // (rep empty: finite type), v1/v2 through the VerifNewNumber hook; kind "G": v3 NewNumber(generator) with the raw
 // stream raw ++ rep^omega (may misbehave), v1/v2 the hook (raw values must then be digits or -1).
